@@ -193,11 +193,11 @@ pub fn gen(prop: &str, scen: &str, _k: u64, seed: u64, tier: &str) -> Case {
             // drop point: after `drop_at` caller operations (writer ops or reads)
             case.set("drop_at", r_ops.below(12) as i64);
             case.set("drop_mode", r_ops.below(3) as i64); // 0 drop mid-way, 1 finish/read to end then drop, 2 after an injected error
-            if writer_role && r_ops.pct(25) {
+            if writer_role && r_ops.pct(35) {
                 // several whole units (workers get spawned), a flush (all of them end up parked),
                 // then fewer new units than parked workers, and the drop right behind them
-                let k = r_ops.urange(2, 4);
-                let more = r_ops.urange(1, 2);
+                let k = r_ops.urange(2, 6);
+                let more = r_ops.urange(1, 3);
                 case.input.len = (k + more) * unit + r_ops.urange(0, 1) * (unit / 2);
                 let mut ops: Vec<WOp> = (0..k).map(|_| WOp::W(unit)).collect();
                 ops.push(WOp::F);
@@ -207,9 +207,11 @@ pub fn gen(prop: &str, scen: &str, _k: u64, seed: u64, tier: &str) -> Case {
                 case.set("drop_at", ops.len() as i64);
                 case.set("drop_mode", 0);
                 case.wops = ops;
-                if case.opt.workers == 1 {
-                    case.opt.workers = 3;
+                if case.opt.workers < 3 {
+                    case.opt.workers = *r_ops.pick(&[3u32, 4, 8]);
                 }
+                // uniform random choices interleave coordinator and workers best for this shape
+                case.sched = Sched { mode: "random".into(), seed: r_ops.next_u64(), ..Default::default() };
             }
             if case.knob("drop_mode") == 2 {
                 if writer_role {
